@@ -147,6 +147,10 @@ SNIPPETS = [
     "class B{n}:\n    base_attr = {a}\nclass D{n}(B{n}):\n    pass\nD{n}().base_attr #P\nD{n}.base_attr #P",
     # inherited classmethods / staticmethods / properties through subclasses (cls is the class looked up on)
     "class CB{n}:\n    @classmethod\n    def make(cls):\n        return cls()\n    @classmethod\n    def kind(cls):\n        return cls\n    def clone(self):\n        return self\n    @staticmethod\n    def st():\n        return {a}\n    @property\n    def me(self):\n        return self\nclass CS{n}(CB{n}):\n    pass\nclass CT{n}(CS{n}):\n    pass\nCS{n}.make() #P\nCT{n}.make() #P\nCB{n}.make() #P\nCS{n}().make() #P\nCT{n}.kind() #P\nCT{n}().clone() #P\nCT{n}.st() #P\nCS{n}().me #P",
+    # parameter defaults and annotations of methods are evaluated in the CLASS body (names bound there, also when the
+    # same name is bound outside the class)
+    "class DA{n}:\n    pass\nclass DB{n}:\n    pass\nItem{n} = DA{n}\nclass DK{n}:\n    Item{n} = DB{n}\n    def get(self, v=Item{n}()):\n        return v\n    @staticmethod\n    def st(v=Item{n}()):\n        return v\n    @classmethod\n    def cm(cls, v=Item{n}()):\n        return v\n    def __init__(self, w=Item{n}()):\n        self.w = w\nDK{n}().get() #P\nDK{n}.st() #P\nDK{n}.cm() #P\nDK{n}().w #P\nDK{n}().get(DA{n}()) #P",
+    "class DC{n}:\n    pass\nclass DL{n}:\n    Local{n} = DC{n}\n    def get(self, v=Local{n}()):\n        return v\n    lam = lambda self, v=Local{n}(): v\nDL{n}().get() #P\nDL{n}().lam() #P",
     # closures and lambdas
     "def outer{n}(x):\n    def inner():\n        return x\n    return inner\nouter{n}({a})() #P",
     "lam{n} = lambda x, y={b}: y\nlam{n}({a}) #P\nlam{n}({a}, {a}) #P",
